@@ -72,11 +72,12 @@ ASSUMPTIONS = [
     "demands both refusals, and the recorder refuses to run a decref with a non-int count (`unobservable`); HANDLE_DEL "
     "with a count below 1 (raised the stored count), class_factory / vinegar.load running a module-level __getattr__ with "
     "a peer-chosen name: all followed in the model",
-    "one reported weakness of the pinned code is NOT part of the statement until repaired (evidence: coverage.measured, "
-    "ratchet EXPECTED_FIXED): HANDLE_CMP consults the connection's policy on type(obj), not the object's own "
-    "_rpyc_getattr, so a safe-listed operator the object's hook denies still runs (build-c06's finding). Repaired and now "
-    "demanded (canary handlers_world.SPY, ratchet set): class_factory read `__class__` of ANY module-level object of a "
-    "loaded module the peer named and stored it as the proxy's class",
+    "two weaknesses found by the reviews were repaired upstream and are now DEMANDED (ratchet EXPECTED_FIXED, measured on "
+    "the code on every run - evidence coverage.measured - plus canaries in every session): HANDLE_CMP lets an object's "
+    "own _rpyc_getattr decide (it used to apply the connection's policy to type(obj), so a safe-listed operator the "
+    "object's hook denies still ran; canary `Hooked`), and class_factory accepts only classes and asks the object it "
+    "finds nothing (it used to read `__class__` of ANY module-level object the peer named and store it as the proxy's "
+    "class; canary handlers_world.SPY)",
 ]
 EXPLANATION = (
     "Theorems (Lean, for every environment, every finite sequence of bursts of arbitrary decoded values / undecodable "
@@ -428,7 +429,7 @@ def _cross_connection_probe(s, g, r):
 # (in the canary cross-check of the correspondence and in the direct oracle) are armed as soon as EITHER this says so or the
 # code is measured to behave (handlers_world.measured); once an entry is True here, measuring False is itself a failure -
 # so a repair is picked up without a false alarm, and its later loss is caught.
-EXPECTED_FIXED = dict(cmp_respects_object_hook=False, class_factory_reads_no_module_object=True)
+EXPECTED_FIXED = dict(cmp_respects_object_hook=True, class_factory_reads_no_module_object=True)
 
 
 def armed(key):
